@@ -90,6 +90,19 @@ type Case struct {
 	Split       int      `json:"split,omitempty"`
 	EarlyHeader bool     `json:"early_header,omitempty"`
 	RespStatus  int      `json:"resp_status,omitempty"`
+	// input snapshots (session.go): referenced maps / lists of the input actions
+	// whose content a fold changed (loop over the public methods; real routing
+	// fold), structs whose fields a fold assigned
+	MutatedFold   []string `json:"inputs_mutated_by_fold,omitempty"`
+	MutatedSpoe   []string `json:"inputs_mutated_by_routing_fold,omitempty"`
+	StructUpdated []string `json:"structs_updated,omitempty"`
+	// sessions (sides sess_req / sess_resp, session.go)
+	Reuse     string `json:"reuse,omitempty"` // maps | structs
+	Via       string `json:"via,omitempty"`   // loop | routing
+	Producers []Act  `json:"producers,omitempty"`
+	SpareCap  []int  `json:"spare_capacity_of_remove_lists,omitempty"`
+	Txns      []Txn  `json:"transactions,omitempty"`
+	Final     []Res  `json:"producers_at_end,omitempty"`
 }
 
 func copyMap(m map[string]string) map[string]string {
@@ -123,8 +136,13 @@ func (a Act) req() actions.ReqLunarAction {
 		return &actions.ModifyRequestAction{HeadersToSet: a.hdr(), Host: a.Host, Path: a.Path,
 			QueryParams: a.Query, Body: a.Body}
 	case kGenReq:
-		return &actions.GenerateRequestAction{HeadersToSet: a.hdr(),
-			HeadersToRemove: append([]string(nil), a.Remove...), Body: a.Body}
+		// spare capacity: an append to this list writes into its backing array
+		rm := make([]string, len(a.Remove), len(a.Remove)+2)
+		copy(rm, a.Remove)
+		if len(a.Remove) == 0 {
+			rm = nil
+		}
+		return &actions.GenerateRequestAction{HeadersToSet: a.hdr(), HeadersToRemove: rm, Body: a.Body}
 	case kEarly:
 		return &actions.EarlyResponseAction{Status: a.Status, Body: a.Body, Headers: a.hdr()}
 	}
@@ -219,6 +237,7 @@ func newRespArgs() lunar_messages.OnResponse {
 
 func exec(k *Case) {
 	k.Result, k.Vars, k.EncVars, k.VarsNoNoops = Res{}, nil, nil, nil
+	k.MutatedFold, k.MutatedSpoe, k.StructUpdated = nil, nil, nil
 	defer func() {
 		if r := recover(); r != nil {
 			k.Result = Res{Kind: "panic", Headers: map[string]string{}, Note: fmt.Sprint(r)}
@@ -228,9 +247,13 @@ func exec(k *Case) {
 		// the loop of runner.runOnRequest / routing.getSPOEReqActions over the
 		// public methods, to observe the resulting action itself
 		args := newReqArgs()
+		in := make([]actions.ReqLunarAction, len(k.Actions))
+		for i, a := range k.Actions {
+			in[i] = a.req()
+		}
+		snaps := snapInputs(in)
 		var acc actions.ReqLunarAction = &actions.NoOpAction{}
-		for _, a := range k.Actions {
-			la := a.req()
+		for _, la := range in {
 			la.EnsureRequestIsUpdated(&args)
 			acc = acc.ReqPrioritize(la)
 		}
@@ -238,18 +261,25 @@ func exec(k *Case) {
 		if acc != nil {
 			k.EncVars = spoeVars(routing.VerifFlattenSPOEActions(acc.ReqToSpoeActions()))
 		}
+		k.MutatedFold, k.StructUpdated = diffInputs(snaps)
 		// the real fold + transformers, on fresh objects
 		fresh := make([]actions.ReqLunarAction, len(k.Actions))
 		for i, a := range k.Actions {
 			fresh[i] = a.req()
 		}
+		snaps = snapInputs(fresh)
 		k.Vars = spoeVars(routing.VerifGetSPOEReqActions(newReqArgs(), fresh))
+		k.MutatedSpoe, _ = diffInputs(snaps)
 		return
 	}
 	args := newRespArgs()
+	in := make([]actions.RespLunarAction, len(k.Actions))
+	for i, a := range k.Actions {
+		in[i] = a.resp()
+	}
+	snaps := snapInputs(in)
 	var acc actions.RespLunarAction = &actions.NoOpAction{}
-	for _, a := range k.Actions {
-		la := a.resp()
+	for _, la := range in {
 		la.EnsureResponseIsUpdated(&args)
 		acc = acc.RespPrioritize(la)
 	}
@@ -257,6 +287,7 @@ func exec(k *Case) {
 	if acc != nil {
 		k.EncVars = spoeVars(routing.VerifFlattenSPOEActions(acc.RespToSpoeActions()))
 	}
+	k.MutatedFold, k.StructUpdated = diffInputs(snaps)
 	fresh := make([]actions.RespLunarAction, len(k.Actions))
 	var freshNoNoops []actions.RespLunarAction
 	for i, a := range k.Actions {
@@ -265,7 +296,9 @@ func exec(k *Case) {
 			freshNoNoops = append(freshNoNoops, a.resp())
 		}
 	}
+	snaps = snapInputs(fresh)
 	k.Vars = spoeVars(routing.VerifGetSPOERespActions(newRespArgs(), fresh))
+	k.MutatedSpoe, _ = diffInputs(snaps)
 	k.VarsNoNoops = spoeVars(routing.VerifGetSPOERespActions(newRespArgs(), freshNoNoops))
 }
 
@@ -375,7 +408,7 @@ var (
 	paths    = []string{"", "/p1", "/p2"}
 	hosts    = []string{"", "h1", "h2"}
 	queries  = []string{"", "q=1"}
-	removes  = [][]string{nil, {"a"}, {"b", "a"}, {"c"}}
+	removes  = [][]string{nil, {"a"}, {"b", "a"}, {"c"}, {"X-Up", "a"}}
 	keyPool  = []string{"a", "b", "c", "x-d", "A"}
 	valPool  = []string{"1", "2", "3", "", "v w"}
 	// strings outside the side condition of the dump (':' / '\n' in a name,
@@ -424,7 +457,7 @@ func randCase(r *c.Rng, side string, maxLen int) Case {
 	}
 	k := Case{Side: side}
 	n := r.Range(0, maxLen)
-	pNoop := c.Pick(r, []int{1, 4, 8})  // of 16
+	pNoop := c.Pick(r, []int{1, 4, 8})     // of 16
 	pEarly := c.Pick(r, []int{0, 0, 2, 5}) // of 16, request side
 	odd := r.Chance(1, 6)
 	for i := 0; i < n; i++ {
@@ -531,6 +564,8 @@ func main() {
 	o.DeclareSuite("resp", "From Verif Require Import C07.Model.", "case_resp", "run_resp")
 	o.DeclareSuite("legacy_req", "From Verif Require Import C07.Model.", "case_legacy_req", "run_legacy_req")
 	o.DeclareSuite("legacy_resp", "From Verif Require Import C07.Model.", "case_legacy_resp", "run_legacy_resp")
+	o.DeclareSuite("sess_req", "From Verif Require Import C07.Model.", "case_sess_req", "run_sess_req")
+	o.DeclareSuite("sess_resp", "From Verif Require Import C07.Model.", "case_sess_resp", "run_sess_resp")
 	o.Rule("request and response action sequences. Exhaustive part: every sequence over the alphabet {no-op} + " +
 		"{other kinds} x {9 header maps over keys {a,b} x values {1,2}} up to length 2 (quick, search) / 3 (thorough), " +
 		"status/body/path/host/query/remove-list tagged with the position; so every cell of both pairwise tables is " +
@@ -539,12 +574,22 @@ func main() {
 		"included); then random sequences of length <= 12 over a pool of header names/values including nil maps, " +
 		"empty strings, upper case, and strings with ':' / newline; legacy suites: random lists of <= 6 " +
 		"fixed-response / account-orchestration / retry remedies split between endpoint and global scope, through " +
-		"runner.DispatchOnRequest / DispatchOnResponse. distinct = distinct (inputs, observed result, observed " +
-		"variables); non-trivial = at least two actions of the sequence are not no-ops")
+		"runner.DispatchOnRequest / DispatchOnResponse. Every fold of the req / resp suites: the objects (header " +
+		"maps, remove lists with spare capacity) referenced by the input actions are snapshotted before and compared " +
+		"after. Sessions (sess_req / sess_resp): 3-5 producers holding long-lived header maps / remove lists, 2-4 " +
+		"transactions each naming the producers that fire; reuse = maps (new structs around the producers' maps) or " +
+		"structs (the very struct handed to every transaction), via = loop over the public methods or the real " +
+		"routing fold; systematic part: every triple of modification kinds x reused producer in first / middle / " +
+		"last position of the first transaction and alone in the second x reuse x via, maps {a:1,b:1} {b:2,c:2} " +
+		"{c:3,d:3}; then random sessions. distinct = distinct (inputs, observed result, observed variables); " +
+		"non-trivial = at least two actions of the sequence are not no-ops (session: some producer carrying " +
+		"headers fires in two transactions and some transaction combines two actions that are not no-ops)")
 	var k Case
 	if _, ok := o.ReplayCase(&k); ok {
 		if strings.HasPrefix(k.Side, "legacy_") {
 			runLegacy(o, k)
+		} else if isSession(k.Side) {
+			runSession(o, k)
 		} else {
 			run(o, k)
 		}
@@ -595,6 +640,18 @@ func main() {
 		runLegacy(o, randLegacy(r, "legacy_req"))
 		runLegacy(o, randLegacy(r, "legacy_resp"))
 	}
+	// sessions: long-lived producers, several transactions
+	fs := func(k Case) { runSession(o, k) }
+	for rep := o.Scale(1, 6, 3); rep > 0; rep-- {
+		systematicSessions(r, "req", fs)
+		systematicSessions(r, "resp", fs)
+	}
+	for i := 0; i < o.Scale(400, 5000, 6000); i++ {
+		runSession(o, randSession(r, "req"))
+	}
+	for i := 0; i < o.Scale(300, 3000, 4000); i++ {
+		runSession(o, randSession(r, "resp"))
+	}
 	o.Finish()
 }
 
@@ -608,6 +665,9 @@ func run(o *c.Out, k Case) {
 	}
 	o.Count(fmt.Sprintf("%s:len=%02d", k.Side, len(k.Actions)))
 	o.Count(k.Side + ":result=" + k.Result.Kind)
+	if len(k.StructUpdated) > 0 {
+		o.Count(k.Side + ":struct-updated-in-place")
+	}
 	idx := o.Case(k.Side, coqCase(&k), k, nonNoop >= 2)
 	o.MonitorChecked(1)
 	for _, h := range monitor(o, &k) {
